@@ -887,20 +887,93 @@ def _trie_random_shard(ctx: Ctx, shard: int, nshards: int, n: int, maxlen: int) 
 
 
 # ======================================================================================================
+# Part C - the refresh round of the overlay that owns the tables (one table per address family)
+# ======================================================================================================
+
+def execute_refresh(ctx: Ctx | None, case: dict) -> None:
+    """
+    "Identifiers generated to refresh a bucket lie inside that bucket", judged where the refresh happens:
+    DHTCommunity.node_maintenance on a node with an IPv4 and an IPv6 table of different shape. Every bucket that the
+    round marks as refreshed must own one of the identifiers the round crawled towards.
+    """
+    from .. import vloop
+    from ..nodes import Node
+    from ..simnet import SimNet
+
+    async def main(loop):
+        from ipv8.dht.community import DHTCommunity
+        from ipv8.dht.routing import Node as DHTNode
+        from ipv8.messaging.interfaces.udp.endpoint import UDPv4Address, UDPv6Address
+        net = SimNet(loop)
+        node = Node(net, case["own"] % 4, dispatcher="dual")
+        ov = node.add(DHTCommunity)
+        ov.cancel_all_pending_tasks()
+        try:
+            rng = random.Random(case["seed"])
+            for fam, count in (("v4", case["n4"]), ("v6", case["n6"])):
+                for j in range(count):
+                    addr = UDPv4Address("2.%d.%d.%d" % (j >> 16 & 255, j >> 8 & 255, j & 255), 9000) if fam == "v4" \
+                        else UDPv6Address("2001:db8::%x" % (j + 1), 9000)
+                    nid = rng.getrandbits(160).to_bytes(20, "big")
+                    n = _hnode_cls()(b"LibNaCLPK:" + hashlib.sha512(nid).digest(), addr)
+                    n._hid = nid
+                    ov.get_routing_table(n).add(n)
+            tables = list(ov.routing_tables.values())
+            buckets = [b for t in tables for b in t.trie.values()]
+            stale = [b for b in buckets if rng.random() < case["stale"] / 4.0 or case["stale"] >= 4]
+            for b in buckets:
+                b.last_changed = loop.time() - (16 * 60 if b in stale else 60)
+            crawled: list[bytes] = []
+
+            async def find_values(target, *a, **k):
+                crawled.append(bytes(target))
+                return []
+            ov.find_values = find_values
+            marks = {id(b): b.last_changed for b in buckets}
+            await ov.node_maintenance()
+            refreshed = [b for b in buckets if b.last_changed != marks[id(b)]]
+            if ctx is not None:
+                ctx.case(("refresh", tuple(sorted(case.items()))), len(tables) == 2 and len(buckets) > 4,
+                         cls="refresh:%dtables:%dbuckets" % (len(tables), min(len(buckets), 20) // 5 * 5))
+            for b in refreshed:
+                if not any(binstr(t).startswith(b.prefix_id) for t in crawled):
+                    raise Violation("T6", "node_maintenance", f"bucket {b.prefix_id!r} was marked as refreshed by a round that "
+                                                              f"crawled towards {[binstr(t)[:12] for t in crawled]}: none of "
+                                                              f"these identifiers lies inside the bucket", case)
+            for b in stale:
+                if b not in refreshed:
+                    raise Violation("T6", "node_maintenance:skipped", f"stale bucket {b.prefix_id!r} was not refreshed", case)
+        finally:
+            await node.unload()
+    vloop.run(main)
+
+
+def _refresh_shard(ctx: Ctx, shard: int, nshards: int, n: int) -> None:
+    from hypothesis import strategies as st
+    strat = st.fixed_dictionaries({"kind": st.just("refresh"), "own": st.integers(0, 3), "seed": st.integers(0, 1 << 30),
+                                   "n4": st.sampled_from([0, 5, 40, 150, 300]), "n6": st.sampled_from([0, 7, 60, 200, 300]),
+                                   "stale": st.integers(1, 4)})
+    hyp_run(ctx, "refresh", strat, lambda c: execute_refresh(ctx, c), n)
+
 
 def run(ctx: Ctx) -> None:
     if ctx.quick:
         shard_run(ctx, _table_shard, extra=(80, 300))
         shard_run(ctx, _trie_shard, extra=(((1, 6), (2, 4), (3, 3)),))
         shard_run(ctx, _trie_random_shard, extra=(150, 6))
+        shard_run(ctx, _refresh_shard, extra=(6,))
     else:
         shard_run(ctx, _table_shard, extra=(120, 2000, "tables-long"))
         shard_run(ctx, _table_shard, extra=(300, 300))
         shard_run(ctx, _trie_shard, extra=(((1, 8), (2, 6), (3, 4), (4, 3)),))
         shard_run(ctx, _trie_random_shard, extra=(3000, 7))
+        shard_run(ctx, _refresh_shard, extra=(150,))
 
 
 def replay(ctx: Ctx, case: dict) -> None:
+    if case.get("kind") == "refresh":
+        execute_refresh(None, case)
+        return
     if case.get("kind") == "trie":
         run = execute_trie(None, case)
         if run.found:
